@@ -137,7 +137,7 @@ def run_model(workdir, dump=True, timeout=600):
     dot = os.path.join(workdir, "MC_Api.dot")
     if os.path.exists(dot):
         os.remove(dot)
-    extra = ["-dump", "dot,actionlabels", dot] if dump else []
+    extra = ["-fp", "1"] + (["-dump", "dot,actionlabels", dot] if dump else [])
     r = tlc.run_tlc("MC_Api.tla", "MC_Api.cfg", workers=4, timeout=timeout, extra=extra, heap="2g")
     ok = "Model checking completed. No error has been found." in r["out"]
     return ok, r, dot
@@ -177,25 +177,37 @@ class Graph:
 
 
 def parse_dot(path):
-    g = Graph()
+    """The labelled state graph TLC dumped.  Node and call numbering is canonical (by TLC's state
+    fingerprint and by label), so that it does not depend on the order in which TLC's workers
+    happened to write the file: the path cover is a function of the graph and VERIF_SEED only."""
+    raw = Graph()
     seen = set()
+    edges = []
+    init = None
     with open(path) as f:
         for line in f:
             m = EDGE.match(line)
             if m:
-                u, v, ci = g.node(m.group(1)), g.node(m.group(2)), g.call(m.group(3))
-                if (u, ci) not in seen:
-                    seen.add((u, ci))
-                    g.out[u].append((ci, v))
-                    g.nedges += 1
+                key = (m.group(1), m.group(3))
+                if key not in seen:
+                    seen.add(key)
+                    edges.append((m.group(1), m.group(2), m.group(3)))
                 continue
             m = NODE.match(line)
-            if m:
-                i = g.node(m.group(1))
-                if g.init is None and "style = filled" in line:
-                    g.init = i
-    if g.init is None:
+            if m and init is None and "style = filled" in line:
+                init = m.group(1)
+    if init is None:
         raise ValueError("no initial state in the TLC dump")
+    g = Graph()
+    names = sorted({e[0] for e in edges} | {e[1] for e in edges} | {init}, key=int)
+    for n in names:
+        g.node(n)
+    for lab in sorted({e[2] for e in edges}):
+        g.call(lab)
+    for (u, v, lab) in edges:
+        g.out[g.idx[u]].append((g.cidx[lab], g.idx[v]))
+        g.nedges += 1
+    g.init = g.idx[init]
     for u in range(len(g.out)):
         g.out[u].sort()
     return g
